@@ -450,6 +450,14 @@ theorem src_scalars_as_modelled (S : Sys) (cutoff t m : ℚ) (uv : Nat × Nat) :
   · rw [Bool.eq_iff_iff]
     simp only [Gen.minTest, decide_eq_true_eq, gt_iff_lt]
 
+/-- **getitem_as_modelled**: `NeighborList.coord` / `NeighborList[i]` as they stand in NeighborList.py (column of the
+    coordination number and first neighbor column regenerated from `build`; `__getitem__`, `__len__`, `coord`, `nlist`
+    and the call of `nlist` pinned by the translator) are `coordOf` / `absRow`, for which `storage_coord` and
+    `nlistFull_complete` are proved. -/
+theorem getitem_as_modelled (row : List Nat) :
+    coordOf row = row.getD Gen.coordCol 0 ∧ absRow row = (row.drop Gen.nbrFrom).take (row.getD Gen.coordCol 0) :=
+  ⟨rfl, rfl⟩
+
 /-! ### text round trip -/
 
 /-- **dump_as_modelled**: the text `NeighborList.dump` writes according to the source of this run (header writes,
